@@ -61,7 +61,18 @@ def make_case(ncpu, n, slow=(), fault=None, seed=None, logs=True, variant='fast'
                 plan.append(entry('queued', p, None, ('sleep', slow_s)))
     for p in sorted(late_sentinel):
         plan.append(entry('queued', p, None, ('sleep', SLOW)))
+    kills = []
+    starts = [sum(ks[:p]) for p in range(max(ncpu, 1))]
     for fault in ([fault] if fault is not None else []) + list(faults or []):
+        if fault['kind'] == 'signal':
+            # armed by a task of that child (the last one for the windows after the loop), see par_fixtures.task_func
+            p = fault['pid']
+            t = fault['t'] if fault['point'] == 'task' else ks[p] - 1
+            kills.append({'i': starts[p] + t, 'sig': int(fault.get('sig', 9)), 'delay': 0 if fault['point'] == 'task' else KILL_DELAY,
+                          'pid': p, 'where': fault['point'], 'task': fault.get('t')})
+            if fault['point'] != 'task':
+                plan.append(entry(fault['point'], p, None, ('sleep', KILL_HOLD)))
+            continue
         act = ('raise', 'injected fault') if fault['kind'] == 'raise' else ('exit', int(fault.get('code', 3)))
         pre = []
         if fault['point'] in ('queued', 'done'):
@@ -73,12 +84,16 @@ def make_case(ncpu, n, slow=(), fault=None, seed=None, logs=True, variant='fast'
                 pre = [('sleep', FAULT_DELAY)]
             plan.append(entry('task', fault['pid'], fault['t'], *(pre + [act])))
     return {'api': api, 'ncpu': ncpu, 'n': n, 'seed': seed, 'plan': plan, 'msleep': msleep, 'boom': [],
-            'logs': bool(logs), 'variant': variant, 'rsize': int(rsize)}
+            'logs': bool(logs), 'variant': variant, 'rsize': int(rsize), 'kill': kills}
+
+
+KILL_DELAY = 0.12     # a signal that hits the process in a later window arrives this long after the task that armed it
+KILL_HOLD = 0.35      # … while the hook plan holds the process in that window
 
 
 def _fault_actions(case):
-    """(pid, where, task, action, value, delayed) of every raise/exit in the plan"""
-    out = []
+    """(pid, where, task, action, value, delayed) of every raise/exit in the plan and of every death by signal"""
+    out = [(k['pid'], k['where'], k.get('task'), 'signal', int(k['sig']), True) for k in case.get('kill') or []]
     for e in case.get('plan') or []:
         delayed = False
         for a, v in e.get('actions', []):
@@ -149,7 +164,7 @@ def _fault_class(case):
     if not fa:
         return 'no-fault'
     pid, where, task, a, v, delayed = fa[0]
-    kind = 'raise' if a == 'raise' else ('exit0' if v == 0 else 'exit-nonzero')
+    kind = 'raise' if a == 'raise' else 'signal' if a == 'signal' else ('exit0' if v == 0 else 'exit-nonzero')
     return '%s-at-%s' % (kind, {'task': 'task', 'done': 'done'}.get(where, 'queued'))
 
 
@@ -223,7 +238,7 @@ def check_outcome(case, out, watchdog):
     n = case['n']
     what = 'parallelize(ncpu=%d, %d tasks, plan=%r, slow tasks=%r, raising tasks=%r%s%s)' % (
         case['ncpu'], n, case.get('plan'), case.get('msleep'), case.get('boom'),
-        (' with %s' % case['boomkind']) if case.get('boomkind') else '',
+        ((' with %s' % case['boomkind']) if case.get('boomkind') else '') + ((', deaths by signal %r' % case['kill']) if case.get('kill') else ''),
         (', every task %s' % {'nested': 'runs a parallel map itself (ncpu=%s, %s tasks)' % tuple(case.get('inner') or (1, 0)), 'thread': 'computes in a thread of its own',
                               'mpchild': 'starts a multiprocessing child'}[case['does']]) if case.get('does') else '')
     if case.get('api') == 'do_trials':
@@ -453,6 +468,13 @@ def _fault_grid(ncpu, n):
         yield {'pid': pid, 'point': 'queued', 'kind': 'exit', 'code': 0, 'flushed': True}
         yield {'pid': pid, 'point': 'queued', 'kind': 'exit', 'code': 3, 'flushed': False}
         yield {'pid': pid, 'point': 'queued', 'kind': 'raise', 'flushed': False}      # the wrapper raises after rqueue.put
+        if ks[pid] > 0:
+            # death by signal (negative exit code): in a task, after rqueue.put, after the log sentinel
+            yield {'pid': pid, 'point': 'task', 't': ks[pid] - 1, 'kind': 'signal', 'sig': 9}
+            yield {'pid': pid, 'point': 'queued', 'kind': 'signal', 'sig': 15}
+            if DONE_HOOK:
+                yield {'pid': pid, 'point': 'done', 'kind': 'signal', 'sig': 9}
+                yield {'pid': pid, 'point': 'done', 'kind': 'signal', 'sig': 15}
         if DONE_HOOK:
             # after the log sentinel: death with a non-zero code, a clean os._exit(0), death before the sentinel is flushed
             yield {'pid': pid, 'point': 'done', 'kind': 'exit', 'code': 3, 'flushed': True}
@@ -532,6 +554,11 @@ def _fault_variants(ncpu, n, fault):
     """completion orders around a fault: everybody fast; the fault happens late (the others finish first);
     the others (and the master) are slow (the fault happens first)"""
     yield make_case(ncpu, n, fault=fault, variant='fast')
+    if fault['kind'] == 'signal':
+        if fault['point'] != 'task':
+            others = [p for p in range(ncpu) if p != fault['pid']]
+            yield make_case(ncpu, n, slow=others, fault=fault, variant='others-slow', slow_s=KILL_HOLD + 3 * SLOW)
+        return
     yield make_case(ncpu, n, fault=dict(fault, late=True), variant='late-fault')
     others = [p for p in range(ncpu) if p != fault['pid']]
     # "the fault happens first" has to hold for a fault that is itself delayed (death after the result / the sentinel reached the
@@ -593,7 +620,7 @@ def run(ctx):
         for n in range(FT + 1):
             for fault in _fault_grid(ncpu, n):
                 vs = list(_fault_variants(ncpu, n, fault))
-                if not ctx.thorough and ncpu >= 3 and fault['pid'] > 1 and fault['point'] != 'task':
+                if not ctx.thorough and ncpu >= 3 and fault['pid'] > 1 and fault['point'] != 'task' and len(vs) == 3:
                     # quick tier: for the faults after the last task all three completion orders for the first child only
                     # (the children are symmetric there), the others get the order picked by the seed
                     vs = [vs[0], vs[1 + rng.randrange(2)]]
@@ -677,7 +704,8 @@ def run(ctx):
     for ncpu, n in [(2, 3), (3, 6)]:
         for fault in _fault_grid(ncpu, n):
             groups.append([dict(make_case(ncpu, n, fault=fault, variant='fault-interactive'), interactive=True)])
-            groups.append([make_case(ncpu, n, fault=fault, seed=31, api='do_trials', variant='fault-do_trials')])
+            if fault['kind'] != 'signal':      # the signal is armed by the task function of the parallelize cases
+                groups.append([make_case(ncpu, n, fault=fault, seed=31, api='do_trials', variant='fault-do_trials')])
     # a working child that is slow between rqueue.put and the log sentinel
     for ncpu in range(2, NC + 1):
         groups.append([make_case(ncpu, NT, late_sentinel=ls, seed=17, variant='late-sentinel')
@@ -697,7 +725,8 @@ def run(ctx):
                 ctx.count('form:%s=%s' % (d, v), len(g))
             groups.append(g)
             if ncpu > 1 and n > 0:
-                fault = rng.choice(list(_fault_grid(ncpu, n)))
+                # (a death by signal is armed through the task's own kwargs dict: only with that kwargs form)
+                fault = rng.choice([f for f in _fault_grid(ncpu, n) if f['kind'] != 'signal' or form['kwargs'] == 'own'])
                 groups.append([dict(make_case(ncpu, n, fault=fault, variant='form-fault'), form=form)])
     for ncpu in (1, 3):
         for fk, fn in (('empty', 'keyword'), ('own', 'cfg'), ('empty', 'positional'), ('own', 'positional'), ('empty', 'cfg')):
@@ -894,7 +923,7 @@ def run(ctx):
         for c, o in zip(g, gouts):
             if o['out'] == 'skipped':
                 continue
-            ctx.case(key=(c['api'], c['ncpu'], c['n'], c['plan'], c['msleep'], c['boom'], c['seed'], c.get('seeds'), c.get('interactive'), c.get('rsize'), c.get('boomkind'), c.get('does'), c.get('inner')),
+            ctx.case(key=(c['api'], c['ncpu'], c['n'], c['plan'], c['msleep'], c['boom'], c['seed'], c.get('seeds'), c.get('interactive'), c.get('rsize'), c.get('boomkind'), c.get('does'), c.get('inner'), c.get('kill')),
                      desc={'case': c, 'outcome': outcome_class(c, o), 'wall': o.get('wall')} if ctx.evaluations % 211 == 0 else None)
             ctx.count('run:%s:%s' % (c['api'], fault_class(c)))
             ctx.count('outcome:' + o['out'])
